@@ -94,6 +94,11 @@ class UnitRows(Fam):
             if rng.random() < 0.3:
                 r["attrs"] = [_name(tok, 200 + i), "public"]
             rows.append(r)
+        if rng.random() < 0.25:
+            # rows re-used from another unit / an earlier workspace still carry that unit's id
+            stale = rng.choice([11, 12, 13, 14, 15, 99])
+            for r in rows:
+                r["unit_id"] = stale
         return {"rows": rows}
 
     def build(self, key, desc):
